@@ -255,6 +255,7 @@ type step struct {
 	Reapply bool   // apply the same configuration a second time right away
 	Late    bool   // the error loggers of captures stopped by this Update run only after Update has returned
 	GapCls  string // class of At - (previous At)
+	Stamped bool   // the write-out of this reconfiguration carries the timestamp of a scheduled write-out
 }
 
 // seq is a whole case: plain data, drawn outside the bubble.
@@ -661,9 +662,12 @@ func drawSeq(t *rapid.T, allow map[string]bool) *seq {
 		}
 		g.repairOverlap(st.Cfg)
 		if i > 0 {
-			if st.Cfg.String() != prev.String() {
+			// an Update that can stop a capture writes out: a changed configuration, or one whose competing regular
+			// expressions may be resolved differently this time
+			if _, diff := st.Cfg.overlapping(); diff || st.Cfg.String() != prev.String() {
 				st.At = admissible(st.At)
 				lastTs = st.At/second + 1
+				st.Stamped = (st.At/second+1)*second%interval == 0
 			}
 			if st.PktAt > st.At {
 				st.PktAt = st.At
